@@ -118,6 +118,12 @@ def check(tier):
                         bad_gen.append((x['source'], '%s: result has characters that come neither from the source nor from %s' % (x['how'], c['generator'])))
             if c.get('target') and x.get('target_returns') == 0:
                 bad_tgt.append((x['source'], '%s: %s.validate() rejects the result on every path (%s)' % (x['how'], c['target'], x.get('target_raises'))))
+            elif c.get('target') and not c.get('generator') and x['how'] == 'compact' and L is not None and len(x['embedded']) == L and x['in_order'] \
+                    and not x.get('target_prevalidated') and x.get('target_raises'):
+                # a conversion that only cuts a part out of the source: that part is a valid target number because the source's
+                # validate() handed exactly these characters to the target's validate(); otherwise every rejecting path of the target counts
+                bad_tgt.append((x['source'], '%s: the result is a part of the source that the source validator does not hand to %s.validate(), '
+                                'which can reject it (%s)' % (x['how'], c['target'], ', '.join(x['target_raises']))))
         if not nres and not bad_shape:
             rep.undecide('C08.shape', file, 'no result of %s for the source lengths %s' % (name, c.get('source_lengths')))
             continue
